@@ -231,7 +231,7 @@ def ltsh(num_glyphs, rng):
     return struct.pack(">HH", 0, num_glyphs) + bytes(rng.choice([1, 1, 9, 12, 50, 255]) for _ in range(num_glyphs))
 
 
-def post2(post, num_glyphs, rng):
+def post2(post, num_glyphs, rng, dup_pool=False):
     """A format 2.0 'post' table for a TrueType font as name-conscious (and careless) tools write them:
     standard Macintosh names by index, own names as Pascal strings, two glyphs sharing one name, and an
     own name that is the empty string. Header fields are taken from the font's own post table."""
@@ -256,5 +256,93 @@ def post2(post, num_glyphs, rng):
         idx.append(258 + len(names) - 1)
     if names and rng.random() < 0.6:
         names[rng.randrange(len(names))] = ""  # an empty Pascal string
+    if dup_pool and names:
+        # a writer that appends one string per glyph without uniquing: the pool holds one string twice (or
+        # three times), glyphs pointing at either copy, perhaps a copy nobody points at
+        for _ in range(rng.choice([1, 1, 2])):
+            j = rng.randrange(len(names))
+            names.append(names[j])
+            users = [g for g, i in enumerate(idx) if i == 258 + j]
+            if users and rng.random() < 0.7:
+                idx[rng.choice(users)] = 258 + len(names) - 1
     out = hdr + struct.pack(">H", num_glyphs) + b"".join(struct.pack(">H", i) for i in idx)
     return out + b"".join(bytes([len(n)]) + n.encode("ascii") for n in names)
+
+
+def _device(start, deltas, fmt):
+    """Device table: per-ppem adjustments start..start+len-1 packed 2, 4 or 8 bits each, the last word padded."""
+    bits = {1: 2, 2: 4, 3: 8}[fmt]
+    per = 16 // bits
+    words = []
+    for i in range(0, len(deltas), per):
+        w = 0
+        for j, d in enumerate(deltas[i : i + per]):
+            w |= (d & ((1 << bits) - 1)) << (16 - bits * (j + 1))
+        words.append(w)
+    return struct.pack(">HHH", start, start + len(deltas) - 1, fmt) + b"".join(struct.pack(">H", w) for w in words)
+
+
+def gpos_devices(num_glyphs, rng):
+    """A GPOS table of hinted fonts: SinglePos format 1 subtables whose value records point at Device
+    tables (per-ppem pixel adjustments). The size ranges reach past the last non-zero adjustment (a tool
+    that writes a fixed range), so the final, partly filled word of a Device is often all zero bits; the
+    Devices sit back to back. Returns (bytes, {gid: [(startSize, [deltas]) for X, for Y]})."""
+    if num_glyphs < 6:
+        return None
+    top = min(num_glyphs, 300)
+    gids = sorted(rng.sample(range(1, top), min(top - 1, rng.randint(2, 5))))
+    subtables = []
+    exp = {}
+    for g in gids:
+        devs = []
+        raw = []
+        for _axis in range(2):
+            fmt = rng.choice([1, 2, 3])
+            lim = {1: 1, 2: 7, 3: 127}[fmt]
+            per = {1: 8, 2: 4, 3: 2}[fmt]
+            n_nonzero = rng.randint(1, 2 * per)
+            n_zero = rng.choice([0, 1, per - 1, per - 1, per, per + 1])
+            deltas = [rng.choice([-lim - 1, -1, 1, lim]) for _ in range(n_nonzero)] + [0] * n_zero
+            start = rng.choice([8, 9, 12, 64, 200, 300, 1000])
+            devs.append((start, deltas))
+            raw.append(_device(start, deltas, fmt))
+        cov = struct.pack(">HHH", 1, 1, g)
+        xoff = 10
+        yoff = xoff + len(raw[0])
+        coff = yoff + len(raw[1])
+        st = struct.pack(">HHHHH", 1, coff, 0x0030, xoff, yoff) + raw[0] + raw[1] + cov
+        subtables.append(st)
+        exp[g] = devs
+    n = len(subtables)
+    lk = struct.pack(">HHH", 1, 0, n)
+    pos = 6 + 2 * n
+    for st in subtables:
+        lk += struct.pack(">H", pos)
+        pos += len(st)
+    lk += b"".join(subtables)
+    ll = struct.pack(">HH", 1, 4) + lk
+    feat = struct.pack(">HHH", 0, 1, 0)
+    fl = struct.pack(">H", 1) + b"kern" + struct.pack(">H", 8) + feat
+    langsys = struct.pack(">HHH", 0, 0xFFFF, 1) + struct.pack(">H", 0)
+    script = struct.pack(">HH", 4, 0) + langsys
+    sl = struct.pack(">H", 1) + b"DFLT" + struct.pack(">H", 8) + script
+    out = struct.pack(">HHHHH", 1, 0, 10, 10 + len(sl), 10 + len(sl) + len(fl))
+    return out + sl + fl + ll, exp
+
+
+def fvar_partial_psnames(fvar, rng):
+    """The same fvar with the PostScript name of some (not all) named instances set to 0xFFFF ("none"), which
+    the format allows per instance; None when the instance records have no such field or there are < 2."""
+    if len(fvar) < 16:
+        return None
+    off, _res, nax, axsz, ninst, instsz = struct.unpack_from(">HHHHHH", fvar, 4)
+    if ninst < 2 or instsz != 4 * nax + 6:
+        return None
+    base = off + nax * axsz
+    if base + ninst * instsz > len(fvar):
+        return None
+    b = bytearray(fvar)
+    which = rng.sample(range(ninst), rng.randint(1, ninst - 1))
+    for i in which:
+        struct.pack_into(">H", b, base + i * instsz + 4 + 4 * nax, 0xFFFF)
+    return bytes(b)
